@@ -18,22 +18,22 @@ func routingSeedFlag() string {
 }
 
 type rGen struct {
-	rng     *rand.Rand
-	focus   string
-	ns, nt  int
-	nextID  []int64
-	high    []int64
-	steps   int
-	drain   []string // queued drain ops
-	drained bool
-	final   []int64
-	gated   []bool
-	lateTgt []bool // targets opened late
-	queue   []string
-	faultsLeft int
+	rng         *rand.Rand
+	focus       string
+	ns, nt      int
+	nextID      []int64
+	high        []int64
+	steps       int
+	drain       []string // queued drain ops
+	drained     bool
+	final       []int64
+	gated       []bool
+	lateTgt     []bool // targets opened late
+	queue       []string
+	faultsLeft  int
 	pendingViol bool
-	hist   [][][2]int64 // per source: every (id, owner) ever sent
-	resend [][][2]int64 // per source: tasks to re-send after a source-stream restart (same ids, same owners)
+	hist        [][][2]int64 // per source: every (id, owner) ever sent
+	resend      [][][2]int64 // per source: tasks to re-send after a source-stream restart (same ids, same owners)
 }
 
 func newRGen(rng *rand.Rand, focus string) (*rGen, string) {
